@@ -172,7 +172,11 @@ func (b *batch) cmds() map[string]func(ts *testscript.TestScript, neg bool, args
 			var files []string
 			filepath.Walk(work, func(p string, info os.FileInfo, err error) error {
 				if err == nil && p != work && !strings.Contains(p, ".tmp") {
-					files = append(files, strings.TrimPrefix(p, work))
+					f := strings.TrimPrefix(p, work)
+					if i := strings.Index(f, "/stool-"); i >= 0 {
+						f = f[:i] + "/stool-*" // the name carries the batch's unique program id (line kind tooldef)
+					}
+					files = append(files, f)
 				}
 				return nil
 			})
@@ -244,6 +248,27 @@ func (b *batch) cmds() map[string]func(ts *testscript.TestScript, neg bool, args
 				vsched.Yield("deferred")
 				b.event(Event{Ev: "ran", S: s, K: k})
 			})
+		},
+		// tfail / tskip: a custom command that ends the run through T itself
+		"tfail": func(ts *testscript.TestScript, neg bool, args []string) {
+			s := b.scriptOf(ts)
+			b.mu.Lock()
+			t := b.tests[s]
+			b.mu.Unlock()
+			if t != nil {
+				t.Fatal("custom command fails the run through T")
+			}
+			panic(failNow{})
+		},
+		"tskip": func(ts *testscript.TestScript, neg bool, args []string) {
+			s := b.scriptOf(ts)
+			b.mu.Lock()
+			t := b.tests[s]
+			b.mu.Unlock()
+			if t != nil {
+				t.Skip("custom command skips the run through T")
+			}
+			panic(skipNow{})
 		},
 		// deferfail: a deferred function that reports a failure through T when it runs (as a Setup cleanup that audits
 		// something would): the run is failed, the functions registered before it still have to run
@@ -369,6 +394,21 @@ func render(sc Script, prog string) string {
 			sb.WriteString("defer\n")
 		case "deferfail":
 			sb.WriteString("deferfail\n")
+		case "linkout":
+			// links that lead out of the work directory, to read-only things of the host: removing the work directory
+			// removes the links and leaves what they point to as it is
+			sb.WriteString("symlink fixfile -> $FIXTURE/ro.txt\nsymlink fixdir -> $FIXTURE/rodir\nmkdir deep\nsymlink deep/again -> $FIXTURE/rodir/inner.txt\n")
+		case "tooldef":
+			// an executable of the script's own, in its work directory
+			sb.WriteString("cp $WORK/seed.txt stool-" + prog + "\nchmod 755 stool-" + prog + "\n")
+		case "condslash":
+			// a condition on a program named with a directory part: whatever it is resolved against, a script that has no
+			// such file must not be told there is one because another script has
+			sb.WriteString("[exec:./stool-" + prog + "] mark has-slash\n[!exec:./stool-" + prog + "] mark no-slash\n")
+		case "tfail":
+			sb.WriteString("tfail\n")
+		case "tskip":
+			sb.WriteString("tskip\n")
 		case "bgwriter":
 			// a background command that keeps (re)creating a directory and a file below $WORK: it has to be stopped
 			// before the work directory is removed, or it brings part of it back
@@ -470,12 +510,22 @@ func runBatch(mode string, cfg Config, strat vsched.Strategy) *RunRec {
 	os.Setenv("VERIF_CANARY", "host-secret")
 	os.Setenv("GOCOVERDIR", filepath.Join(base, "cov")) // documented pass-through variables
 	os.Setenv("GORACE", "atexit_sleep_ms=7")
+	// read-only things of the host that scripts may link to (line kind linkout)
+	fixture := filepath.Join(base, "fixture")
+	os.MkdirAll(filepath.Join(fixture, "rodir"), 0o777)
+	os.WriteFile(filepath.Join(fixture, "ro.txt"), []byte("host fixture\n"), 0o444)
+	os.WriteFile(filepath.Join(fixture, "rodir", "inner.txt"), []byte("host fixture\n"), 0o444)
+	os.Chmod(filepath.Join(fixture, "ro.txt"), 0o444)
+	os.Chmod(filepath.Join(fixture, "rodir", "inner.txt"), 0o444)
+	os.Chmod(filepath.Join(fixture, "rodir"), 0o555)
+	fixModes := map[string]os.FileMode{"ro.txt": 0o444, "rodir/inner.txt": 0o444, "rodir": 0o555}
 	cwd0, _ := os.Getwd()
 	env0 := strings.Join(os.Environ(), "\n")
 	// a deadline far in the future: RunT then runs its scripts under a shared context with a timeout
 	p := testscript.Params{Dir: sdir, Cmds: b.cmds(), Deadline: time.Now().Add(2 * time.Hour),
 		Setup: func(e *testscript.Env) error {
 			e.Setenv("SETUP_ADDED", "yes")
+			e.Setenv("FIXTURE", fixture)
 			// Setup registers a clean-up of its own (the first deferred function of every script) ...
 			t, _ := e.T().(*recT)
 			if t == nil {
@@ -625,6 +675,16 @@ func runBatch(mode string, cfg Config, strat vsched.Strategy) *RunRec {
 			}
 		}
 	}
+	for _, f := range []string{"ro.txt", "rodir/inner.txt", "rodir"} {
+		fi, err := os.Stat(filepath.Join(fixture, f))
+		switch {
+		case err != nil:
+			rec.Host = append(rec.Host, "host fixture "+f+" is gone: "+err.Error())
+		case fi.Mode().Perm() != fixModes[f]:
+			rec.Host = append(rec.Host, fmt.Sprintf("mode of host fixture %s changed from %o to %o", f, fixModes[f], fi.Mode().Perm()))
+		}
+	}
+	os.Chmod(filepath.Join(fixture, "rodir"), 0o777)
 	if cwd1, _ := os.Getwd(); cwd1 != cwd0 {
 		rec.Host = append(rec.Host, "cwd changed to "+cwd1)
 		os.Chdir(cwd0)
